@@ -63,6 +63,7 @@ FEATURES = {
     "translucent_group_of_groups": f'<svg {NS} viewBox="0 0 100 100"><g opacity="0.5"><rect x="5" y="5" width="50" height="50" fill="red"/><g opacity="0.5"><rect x="30" y="30" width="40" height="40" fill="blue"/><rect x="50" y="50" width="40" height="40" fill="lime"/></g></g></svg>',
     "exponent_dust_coordinates": f'<svg {NS} viewBox="0 0 100 100"><path d="M0,0 L10,1e-7 L10,10 L3e-9,10 Z" fill="red"/></svg>',
     "wrapper_hides_outer_paint": f'<svg {NS} viewBox="0 0 100 100"><g fill="red"><g><rect x="10" y="10" width="30" height="30" fill="black"/><rect x="50" y="50" width="30" height="30"/></g></g></svg>',
+    "explicit_initial_value_under_paint": f'<svg {NS} viewBox="0 0 100 100"><g fill="red" stroke="none"><rect x="10" y="10" width="30" height="30" fill="black"/><rect x="50" y="50" width="30" height="30"/></g></svg>',
     "nested_descriptive_elements": f'<svg {NS} viewBox="0 0 100 100"><metadata><title>t</title><desc>d</desc></metadata><defs><linearGradient id="t"><stop offset="0" stop-color="red"/><stop offset="1" stop-color="blue"/></linearGradient>'
                                    f'<linearGradient id="g" xlink:href="#t"><desc>about g</desc></linearGradient></defs><rect width="50" height="50" fill="url(#g)"/></svg>',
     "three_gradients_order": f'<svg {NS} viewBox="0 0 100 100"><defs>' + "".join(f'<linearGradient id="g{c}"><stop offset="0" stop-color="red"/><stop offset="1" stop-color="{col}"/></linearGradient>' for c, col in zip("abc", ("blue", "lime", "teal")))
